@@ -10,6 +10,7 @@ mod mon;
 mod mon2;
 #[cfg(all(feature = "conc", feature = "hooks"))]
 mod proto;
+mod pmodel;
 mod progs;
 mod props;
 
